@@ -256,24 +256,34 @@ def chart_oracle(toks, meta):
 def suite_charts(ctx, n):
     rng = ctx.rng
     lines, metas = [], []
-    for _ in range(n):
+    for k in range(n):
         doc, meta, total = delay_doc(rng)
         for eng in ("large", "fast"):
             # drive with blocking steps so that the interpreter thread sleeps in dequeue while timers fire
-            ops = ",".join(["T", "q"] + ["b:40", "q"] * (total // 40 + 20) + ["w:60", "q"])
-            lines.append("%s\t-\t%s\t%s" % (eng, ops, hexs(doc))); metas.append((doc, meta))
+            ops = ["T", "q"] + ["b:40", "q"] * (total // 40 + 20) + ["w:60", "q"]
+            if k % 3 == 2:
+                # reset() with delayed events pending, then the whole run again: what is judged is the second incarnation, in which
+                # nothing sent before the reset may arrive (it would be early for, or a duplicate of, the new incarnation's send)
+                ops = ["T", "q"] + ["b:40", "q"] * rng.randint(0, max(1, total // 80)) + ["r"] + ops[1:]
+            lines.append("%s\t-\t%s\t%s" % (eng, ",".join(ops), hexs(doc))); metas.append((doc, meta))
     parts = list(chunks(lines, max(1, (len(lines) + 7) // 8)))
     def work(part):
         rc, h, err = ctx.harness_lines("api", part, variant="asan", timeout=3600)
         if rc != 0 or len(h) != len(part): raise BrokenTie("harness", "uvharness api rc=%s" % rc)
         return h
     with ThreadPoolExecutor(8) as ex: H = [x for part in ex.map(work, parts) for x in part]
-    st = dict(inputs=len(lines), as_expected=0, events=0, cancelled_in_time=0, violations=0)
+    st = dict(inputs=len(lines), as_expected=0, events=0, cancelled_in_time=0, with_reset=0, pending_at_reset=0, violations=0)
     for l, h, (doc, meta) in zip(lines, H, metas):
         toks = h.split(" ")
         st["events"] += sum(1 for t in toks if t.startswith("bpe:d"))
         bad = [t for t in toks if t.startswith(("CRASH", "EXIT", "EXC"))]
-        why = ("abnormal end %s" % bad) if bad or toks[-1] != "end" else chart_oracle(toks, meta)
+        judged = toks
+        if "reset" in toks:
+            r = toks.index("reset")
+            st["with_reset"] += 1; st["pending_at_reset"] += sum(1 for i in meta["delay"] if "bc:%d" % (100 + i) in toks[:r] and "bpe:d%d" % i not in toks[:r])
+            stamp = [t for t in toks[:r] if t.startswith("@")][-1:]
+            judged = stamp + toks[r + 1:]
+        why = ("abnormal end %s" % bad) if bad or toks[-1] != "end" else chart_oracle(judged, meta)
         if why is None:
             st["as_expected"] += 1
             st["cancelled_in_time"] += sum(1 for i in meta["delay"] if not any(t == "bpe:d%d" % i for t in toks))
@@ -297,7 +307,7 @@ def run(ctx):
     ctx.coverage["distinct_nontrivial"] = s1["races"]
     ctx.coverage["rule"] = ("random scripts of 2-12 enqueue (delays 1-80 ms, 6 keys, re-used keys replace) / cancel / cancelAll / wait operations against the compiled BasicDelayedEventQueue "
                             "with 0-3 schedule hooks sleeping 3-40 ms at the timer thread's and the canceller's protocol points, plus directed races; non-trivial = a cancel met a timer callback "
-                            "that had already started; charts with 2-6 delayed sends at distinct multiples of 40 ms, sendids shared by several pending sends or not, and immediate or event-triggered cancels, both engines, judged against the times at which the <send>/<cancel> elements were seen to run")
+                            "that had already started; charts with 2-6 delayed sends at distinct multiples of 40 ms, sendids shared by several pending sends or not, and immediate or event-triggered cancels, both engines, judged against the times at which the <send>/<cancel> elements were seen to run; every third chart is reset with delayed events pending and run again (the second incarnation is judged)")
     ctx.assumptions += ["libevent fires a timer only when due, once per event_add, one callback at a time; event_del waits for a running callback (trusted base)",
                         "time is compared at millisecond resolution with %d ms granularity granted" % G,
                         "the order of log lines of different threads is the order in which they took the harness' log mutex (inside the queue's locked sections where the protocol needs it)"]
